@@ -15,6 +15,7 @@ fn dispatch(req: &Value) -> Value {
         k if k.starts_with("time.") => time_k::run(k, req),
         k if k.starts_with("sm.") => sm::run(k, req),
         k if k.starts_with("version.") => version_k::run(k, req),
+        "nonce.display" => uri_k::nonce(req),
         k if k.starts_with("uri.") => uri_k::run(k, req),
         _ => json!({"error": format!("unknown kernel {}", kernel)}),
     });
